@@ -117,7 +117,10 @@ T = [
     ["def fd():", "    return $E", "    $B"],
     ["v = [(lambda: $E), (lambda: $E)]"],
     ["def fe(p):", '    ""', "    $B", '    return ("", $E)'],
-    ["def fp(p, /, q=$E, *, k):", "    loc = k", "    $B", "    return (q, loc)"],
+    ["def fp(p, /, q=$E, *, k):", "    loc = 1", "    $B", "    return (q, loc, k)"],
+    # a class body that reads __class__ as a free variable while one of its methods
+    # makes it a cell of the body: the same name in co_cellvars and co_freevars
+    ["class CC:", "    def m(self):", "        class DD(CC):", "            y = __class__", "            def n(self):", "                $B", "                return super().n()", "        return DD"],
 ]
 
 # contexts: (name, header lines, indent)
@@ -266,6 +269,13 @@ def n_prog_Pd_nest3():
     return nb * nb * len(T)
 
 
+def spread(lst, n):
+    """n elements of lst spread evenly over its whole length (all of it if shorter)."""
+    if len(lst) <= n:
+        return list(lst)
+    return [lst[(i * len(lst)) // n] for i in range(n)]
+
+
 def with_modes(cases, optimize=(0,), modes=("exec",)):
     for c in cases:
         for m in modes:
@@ -274,6 +284,35 @@ def with_modes(cases, optimize=(0,), modes=("exec",)):
                 d["mode"] = m
                 d["opt"] = o
                 yield d
+
+
+# ------------------------------------------------- constants that are == but not the same
+EQ_GROUPS = [
+    ["0.0", "-0.0", "0", "False", "0j", "-0j"],
+    ["1", "1.0", "True", "(1+0j)"],
+    ["(1, 2)", "(1.0, 2.0)", "(True, 2)", "(1, 2.0)"],
+    ["x in {1}", "x in {1.0}", "x in {True}"],
+    ["'a'", "b'a'"],
+    ["(0.0,)", "(-0.0,)", "(0,)"],
+    ["(1e999-1e999)", "-(1e999-1e999)", "1e999*0"],
+]
+
+
+def prog_Q():
+    """Programs holding constants that compare equal with == but are different
+    constants, alone and in ordered pairs (one code object and two code objects)."""
+    for g in EQ_GROUPS:
+        for a in g:
+            yield {"k": "src", "s": "Q", "src": "v = %s\n" % a, "mode": "exec", "opt": 0}
+            for b in g:
+                if a == b:
+                    continue
+                yield {"k": "src", "s": "Q", "src": "v = %s\nw = %s\n" % (a, b), "mode": "exec", "opt": 0}
+                yield {"k": "src", "s": "Q", "src": "def f():\n    return %s\ndef g():\n    return %s\n" % (a, b), "mode": "exec", "opt": 0}
+
+
+def n_prog_Q():
+    return sum(len(g) + 2 * len(g) * (len(g) - 1) for g in EQ_GROUPS)
 
 
 # ---------------------------------------------------------------- eval/single programs
@@ -412,6 +451,12 @@ def feat_cases(tier):
         ks = sorted(set(ks + list(range(1, 140)) + list(range(5440, 5480, 1)) + list(range(8180, 8200)) + list(range(10900, 10930)) + list(range(16370, 16390))))
     for kind in JUMP_KINDS:
         for k in ks:
+            yield {"k": "jump", "s": "J", "kind": kind, "n": k, "mode": "exec", "opt": 0}
+    # jump operands of three code units (two EXTENDED_ARG prefixes): 6 bytes / 3
+    # instructions per statement, so >65535 bytes before 3.10 and >65535 instructions
+    # from 3.10
+    for kind in ("if", "back"):
+        for k in (11000, 22000):
             yield {"k": "jump", "s": "J", "kind": kind, "n": k, "mode": "exec", "opt": 0}
 
 
